@@ -7,6 +7,7 @@ from common import *
 
 REL = 'pedantic/decorators/fn_deco_retry.py'
 UNIT = 'Retry'
+UNITS = [UNIT]
 CMP = {ast.Lt: 'CLt', ast.LtE: 'CLe', ast.Gt: 'CGt', ast.GtE: 'CGe', ast.Eq: 'CEq', ast.NotEq: 'CNe'}
 
 
